@@ -27,12 +27,36 @@ def m_fn_call(ctx, args, callee):
     return ctx.call_closure(args[0], list(tup.f) if isinstance(tup, Agg) else [tup])
 
 
+def _int_valued_fp(x):
+    """syntactically a float converted from a bit-vector integer (possibly negated): finite, without a fraction"""
+    try:
+        while x.decl().kind() == z3.Z3_OP_FPA_NEG:
+            x = x.arg(0)
+        return x.decl().kind() == z3.Z3_OP_FPA_TO_FP_UNSIGNED or (x.decl().kind() == z3.Z3_OP_FPA_TO_FP and x.num_args() == 2 and z3.is_bv(x.arg(1)))
+    except Exception:
+        return False
+
+
+@model(r'^(core::|std::)?f64::<impl f64>::(fract|trunc|floor|ceil|round)$|^f64::(fract|trunc|floor|ceil|round)$')
+def m_f64_rounding(ctx, args, callee):
+    x = args[0]
+    k = callee.rsplit('::', 1)[1]
+    # a value converted from an integer has no fraction (said syntactically: the solver's float theory needs minutes to find that out)
+    if _int_valued_fp(x):
+        return z3.FPVal(0.0, x.sort()) if k == 'fract' else x
+    tr = z3.fpRoundToIntegral(z3.RTZ(), x)
+    if k == 'fract':
+        return z3.fpSub(z3.RNE(), x, tr)
+    mode = {'trunc': z3.RTZ(), 'floor': z3.RTN(), 'ceil': z3.RTP(), 'round': z3.RNA()}[k]
+    return z3.fpRoundToIntegral(mode, x)
+
+
 @model(r'^core::f64::<impl f64>::is_finite$|^f64::is_finite$|^core::f64::<impl f64>::is_nan$|^f64::is_nan$|^core::f64::<impl f64>::is_infinite$|^f64::is_infinite$')
 def m_f64_class(ctx, args, callee):
     from .models_fmt import ExactF64
     x = args[0]
     k = callee.rsplit('::', 1)[1]
-    if isinstance(x, ExactF64):
+    if isinstance(x, ExactF64) or _int_valued_fp(x):
         return z3.BoolVal(k == 'is_finite')
     return {'is_finite': z3.Not(z3.Or(z3.fpIsNaN(x), z3.fpIsInf(x))), 'is_nan': z3.fpIsNaN(x), 'is_infinite': z3.fpIsInf(x)}[k]
 
